@@ -99,6 +99,16 @@ func init() {
 		ec.e().trusted["std:(*os.File).Close error not counted as a failure (read-only files)"] = true
 		return Var(ec.e().fresher.name("File.Close.err"), SInt)
 	}
+	// Close of a reader / writer held through an interface: reports an error, reads and writes nothing
+	for _, n := range []string{"(io.Closer).Close", "(io.ReadCloser).Close", "(io.WriteCloser).Close"} {
+		n := n
+		stdModels[n] = func(ec *evalCtx, call *ast.CallExpr, recv Value, args []Value) Value {
+			ec.e().trusted["std:"+n+" (reads and writes nothing; its error is a result like any other)"] = true
+			err := Var(ec.e().fresher.name("Close.err"), SInt)
+			ec.noteFailure(Not(Eq(err, Int(0))))
+			return err
+		}
+	}
 	// io.LimitReader(r, n): a reader that yields at most n bytes of r
 	stdModels["io.LimitReader"] = func(ec *evalCtx, call *ast.CallExpr, recv Value, args []Value) Value {
 		obj := ec.e().allocObj(ec.st, &StructV{Names: []string{"$lim", "$n"}, F: map[string]Value{"$lim": args[0], "$n": args[1]}})
